@@ -145,11 +145,25 @@ mod std_part {
                     v("hugetlbfs-hint-differs-from-request", jobj! {"req" => J::dbg(q), "got" => J::dbg(&reg.is_hugetlbfs()), "want" => J::dbg(&want_hint)});
                 }
                 // exactly one mapping of exactly the request
-                let okmap = log.iter().filter(|e| matches!(e, Ev::Mmap { .. })).count() == 1
-                    && matches!(log.iter().find(|e| matches!(e, Ev::Mmap { .. })), Some(Ev::Mmap { len, prot, flags, fd, off, ret, errno: 0, .. })
-                        if *len == q.size && *prot == q.prot && *flags == q.flags && *off == q.offset as i64 * (q.file_len.is_some() as i64) && *ret == reg.as_ptr() as usize
-                        && (*fd >= 0) == q.file_len.is_some());
-                if !okmap || !unmaps.is_empty() {
+                // (judged on the net effect: the region's bytes are covered by what the construction
+                // left mapped, and the mapping call that produced them carried the requested
+                // protection, flags, descriptor kind and - relative to the region start - file offset;
+                // an implementation may over-allocate and trim)
+                let mut net = interpose::Pieces::default();
+                net.apply(&log);
+                let base = reg.as_ptr() as usize;
+                let covering = log.iter().rev().find_map(|e| match e {
+                    Ev::Mmap { len, prot, flags, fd, off, ret, errno: 0, .. } if *ret <= base && base < *ret + (*len).max(1) => Some((*prot, *flags, *fd, *off + (base - *ret) as i64)),
+                    _ => None,
+                });
+                let okmap = net.covers(base, q.size.max(1))
+                    && matches!(covering, Some((prot, flags, fd, off)) if prot == q.prot && flags == q.flags && (fd >= 0) == q.file_len.is_some() && off == q.offset as i64 * (q.file_len.is_some() as i64));
+                // (extra pages kept mapped next to the region are not judged here: the statement asks
+                // what the region reports and that its bytes are those requested; C12 judges that
+                // everything mapped for the region goes away with its last owner)
+                let extra = net.total().saturating_sub(q.size.max(1).div_ceil(4096) * 4096);
+                out::count("bytes_mapped_beyond_the_region_pages", extra as i128);
+                if !okmap {
                     v("mapping-differs-from-request", jobj! {"req" => J::dbg(q), "log" => J::dbg(&log)});
                 }
                 // coherence for shared file mappings that are readable+writable
@@ -161,8 +175,9 @@ mod std_part {
                 drop(reg);
                 let l2 = interpose::disarm();
                 let (_, um) = balance(&l2);
-                if um.len() != 1 || um[0] != maps.first().cloned().unwrap_or((0, 0)) {
-                    v("drop-does-not-unmap-exactly-the-mapping", jobj! {"req" => J::dbg(q), "munmaps" => J::dbg(&um), "mapped" => J::dbg(&maps)});
+                net.apply(&l2);
+                if net.total() != 0 || l2.iter().any(|e| matches!(e, Ev::Mmap { .. })) {
+                    v("drop-does-not-unmap-exactly-the-mapping", jobj! {"req" => J::dbg(q), "munmaps" => J::dbg(&um), "mapped" => J::dbg(&maps), "left" => J::dbg(&net.v)});
                 }
             }
             Ok(Err(e)) => {
@@ -302,6 +317,88 @@ mod std_part {
             }
         }
         unsafe { libc::munmap(base as *mut _, len) };
+    }
+
+    /// A backing "file" that is a block device (a loop device over a 1 MiB image; needs root): its
+    /// length is what seeking to its end reports, not what its metadata says (0). Requests inside
+    /// the device are safe and must yield regions, requests past its end must be refused.
+    pub fn block_device_backing(stats: &mut Stats) {
+        use std::os::fd::AsRawFd;
+        const LOOP_CTL_GET_FREE: libc::c_ulong = 0x4C82;
+        const LOOP_SET_FD: libc::c_ulong = 0x4C00;
+        const LOOP_CLR_FD: libc::c_ulong = 0x4C01;
+        let dev_len: u64 = 1 << 20;
+        let setup = || -> Option<(File, File)> {
+            let ctl = std::fs::OpenOptions::new().read(true).write(true).open("/dev/loop-control").ok()?;
+            // SAFETY: plain ioctls on descriptors we own.
+            let n = unsafe { libc::ioctl(ctl.as_raw_fd(), LOOP_CTL_GET_FREE) };
+            if n < 0 {
+                return None;
+            }
+            let dev = std::fs::OpenOptions::new().read(true).write(true).open(format!("/dev/loop{}", n)).ok()?;
+            let img = temp_file(dev_len);
+            if unsafe { libc::ioctl(dev.as_raw_fd(), LOOP_SET_FD, img.as_raw_fd()) } < 0 {
+                return None;
+            }
+            Some((dev, img))
+        };
+        let Some((dev, _img)) = setup() else {
+            out::note("C15/block-device-backing-not-available", J::Null);
+            return;
+        };
+        let rw = libc::PROT_READ | libc::PROT_WRITE;
+        for (off, size) in [(0u64, 4096usize), (0, dev_len as usize), (4096, dev_len as usize - 4096), (dev_len - 4096, 4096), (0, dev_len as usize + 1), (dev_len, 1), (dev_len - 4096, 8192), (u64::MAX - 4095, 4096)] {
+            let want_ok = off.checked_add(size as u64).map_or(false, |e| e <= dev_len);
+            let fo = FileOffset::new(dev.try_clone().unwrap(), off);
+            interpose::arm();
+            let res = guarded(|| if size % 8192 == 0 { MmapRegion::<()>::from_file(fo, size) } else { MmapRegion::<()>::build(Some(fo), size, rw, libc::MAP_SHARED | libc::MAP_NORESERVE) });
+            let log = interpose::disarm();
+            let mut net = interpose::Pieces::default();
+            net.apply(&log);
+            match res {
+                Err(p) => v(&format!("panic/block-device/{}", panic_sig(&p)), J::s(p)),
+                Ok(Ok(reg)) => {
+                    stats.ok += 1;
+                    if !want_ok {
+                        v("block-device/unsafe-request-accepted", jobj! {"offset" => off, "size" => size, "device_len" => dev_len});
+                    }
+                    if reg.size() != size || reg.file_offset().map(|f| f.start()) != Some(off) || reg.prot() != rw {
+                        v("block-device/region-attributes-differ-from-request", jobj! {"offset" => off, "size" => size});
+                    }
+                    if want_ok {
+                        // byte i of the region is byte offset+i of the device, both directions
+                        let s = reg.as_volatile_slice();
+                        let i = size - 1;
+                        let _ = s.write_obj::<u8>(0x6b, i);
+                        let mut b = [0u8; 1];
+                        let got = dev.read_at(&mut b, off + i as u64);
+                        if got.ok() != Some(1) || b[0] != 0x6b {
+                            v("block-device/region-byte-not-visible-in-the-device", jobj! {"offset" => off, "i" => i, "read" => b[0]});
+                        }
+                        let _ = dev.write_at(&[0x3c], off);
+                        if s.read_obj::<u8>(0).ok() != Some(0x3c) {
+                            v("block-device/device-byte-not-visible-in-the-region", jobj! {"offset" => off});
+                        }
+                    }
+                    drop(reg);
+                }
+                Ok(Err(e)) => {
+                    if want_ok {
+                        v(&format!("block-device/safe-request-refused/{}", rerr(&e)), jobj! {"offset" => off, "size" => size, "device_len" => dev_len});
+                    } else {
+                        stats.refused += 1;
+                    }
+                    if net.total() != 0 {
+                        v("block-device/failed-construction-left-a-mapping", jobj! {"offset" => off, "size" => size, "left" => J::dbg(&net.v)});
+                    }
+                }
+            }
+            out::key(&format!("block-device|{}|{}", if want_ok { "inside" } else { "past-end" }, if size % 8192 == 0 { "from_file" } else { "build" }), true);
+            out::eval(1);
+        }
+        // SAFETY: detaching the image from the loop device we attached it to.
+        unsafe { libc::ioctl(dev.as_raw_fd(), LOOP_CLR_FD) };
+        out::count("block_device_requests", 8);
     }
 
     pub fn check_file_offset_grid() {
@@ -632,6 +729,7 @@ pub fn run(args: &Args) {
             std_part::check_file_offset_grid();
             std_part::grid(&mut stats);
             std_part::raw_ptr_grid(&mut stats);
+            std_part::block_device_backing(&mut stats);
             std_part::guest_base_grid();
             std_part::random(args, &mut stats);
         });
